@@ -37,6 +37,7 @@ PropsOK ==
 Step(e) ==
   CASE e.a = "Submit" /\ e.k = "na" -> (IF e.acc THEN Submit("plain") ELSE SubmitRefused)   \* see ControlConn.tla, NonAscii
     [] e.a = "Submit"     -> Submit(e.k) /\ (("ret" \in DOMAIN e) => e.ret \in CbReturns)
+    [] e.a = "GiveUp"     -> GiveUp(e.c)
     [] e.a = "AddL"       -> AddL(e.l, e.n)
     [] e.a = "RemL"       -> RemL(e.l, e.n)
     [] e.a = "WhenDisc"   -> WhenDisc(e.k)
